@@ -250,3 +250,502 @@ Proof.
   destruct (gen_ctor_returns_iff_sized dflt0 vs Hd) as (p & cap & A & B & -> & _ & _ & C).
   exists p. auto.
 Qed.
+
+(* ================= the helper goroutines of Fork, Split, Join ================= *)
+Definition go_body (f : list pstmt) : list pstmt :=
+  match find (fun s => match s with PGo _ => true | _ => false end) f with Some (PGo b) => b | _ => [] end.
+
+Definition fan_env (inq : nat) (outs : list nat) (k c i : nat) : env :=
+  [("group1"%string, VGroup); ("num1"%string, VNum k); ("queue1"%string, VQ (Some inq));
+   ("num2"%string, VNum c); ("queues1"%string, VQs outs); ("num3"%string, VNum i)].
+
+Definition probe_w (body : list pstmt) (e : env) : hstate :=
+  match next_call 1 (hstart body e []) with HCall _ w => w | _ => hstart [] [] [] end.
+Definition fork_probe : hstate := probe_w (go_body gen_Fork) (fan_env 0 [1; 2] 2 1 2).
+Definition fork_KW : list kitem := Eval cbv in h_k fork_probe.
+Definition fork_KA : list kitem := Eval cbv in h_k (run_until at_while 1 8 (deliver fork_probe (RHead 5%Z true))).
+Definition fork_KC : list kitem := Eval cbv in h_k (run_until at_while 1 8 (deliver fork_probe (RHead 0%Z false))).
+
+Lemma nth_map_some j (l : list nat) : j < length l -> nth j (map Some l) None = Some (nth j l 0).
+Proof. revert j; induction l as [|a l IH]; intros [|j] H; simpl in *; try lia; auto. apply IH; lia. Qed.
+
+Ltac ss := unfold same_shared; cbn [h_qs h_wg h_go]; rewrite ?Nat.eqb_refl; reflexivity.
+
+Section Fork.
+Variables (dflt inq : nat) (outs : list nat) (k c i : nat) (qs : list (nat * nat)).
+
+Definition fan_state (K : list kitem) (s : nat) (tail : env) (dfr : nat) (pend : option (string * string)) : hstate :=
+  {| h_k := K;
+     h_env := fan_env inq outs k c i ++ ("iter1"%string, VIterQ {| it_vals := map Some outs; it_slot := s |}) :: tail;
+     h_defer := dfr; h_qs := qs; h_wg := 0; h_log := [EvDefer]; h_go := None; h_pending := pend; h_ret := None |}.
+
+Definition fork_W (s : nat) (v : Z) (b : bool) : hstate :=
+  fan_state fork_KW s [("head1"%string, VZ v); ("ok1"%string, VBool b)] 1 (Some ("head1"%string, "ok1"%string)).
+Definition fork_A (j : nat) (v : Z) : hstate :=
+  fan_state fork_KA j [("head1"%string, VZ v); ("ok1"%string, VBool true)] 1 None.
+Definition fork_C (j : nat) : hstate := fan_state fork_KC j [] 1 None.
+
+Ltac unf := unfold fork_W, fork_A, fork_C, fan_state, fan_env, fork_KW, fork_KA, fork_KC, deliver.
+
+
+Lemma gen_Fork_start :
+  run_local dflt (gen_mk dflt) 4 (hstart (go_body gen_Fork) (fan_env inq outs k c i) qs) = HCall (CRemoveHead inq) (fork_W 0 0%Z false).
+Proof. unfold go_body, fan_env. cbn [gen_Fork find]. do 4 hs. reflexivity. Qed.
+
+Lemma gen_Fork_ok s v b v' :
+  run_local dflt (gen_mk dflt) 2 (deliver (fork_W s v b) (RHead v' true)) = HLocal (fork_A 0 v').
+Proof. unf. hsimpl. do 2 hs. reflexivity. Qed.
+
+Lemma gen_Fork_add_step j v : j < length outs ->
+  exists m, run_local dflt (gen_mk dflt) 3 (fork_A j v) = HCall (CAdd (nth j outs 0) v) m /\
+            same_shared (fork_A j v) m = true /\ shared_eq m (fork_A (S j) v) /\
+            run_local dflt (gen_mk dflt) 1 m = HLocal (fork_A (S j) v).
+Proof.
+  intros Hj. unf. eexists. split; [|split; [|split]].
+  - hs. rewrite map_length. apply Nat.ltb_lt in Hj. rewrite Hj. hs. rewrite map_length, Hj. hsimpl.
+    rewrite nth_map_some by (apply Nat.ltb_lt; exact Hj). hs. reflexivity.
+  - ss.
+  - split; reflexivity.
+  - hs. reflexivity.
+Qed.
+
+Lemma gen_Fork_add_exit j v : length outs <= j ->
+  run_local dflt (gen_mk dflt) 4 (fork_A j v) = HCall (CRemoveHead inq) (fork_W j 0%Z false).
+Proof. intros Hj. unf. hs. rewrite map_length. apply Nat.ltb_ge in Hj. rewrite Hj. do 3 hs. reflexivity. Qed.
+
+Lemma gen_Fork_closed s v b v' :
+  run_local dflt (gen_mk dflt) 3 (deliver (fork_W s v b) (RHead v' false)) = HLocal (fork_C 0).
+Proof. unf. hsimpl. do 3 hs. reflexivity. Qed.
+
+Lemma gen_Fork_close_step j : j < length outs ->
+  exists m, run_local dflt (gen_mk dflt) 3 (fork_C j) = HCall (CClose (nth j outs 0)) m /\
+            same_shared (fork_C j) m = true /\ shared_eq m (fork_C (S j)) /\
+            run_local dflt (gen_mk dflt) 1 m = HLocal (fork_C (S j)).
+Proof.
+  intros Hj. unf. eexists. split; [|split; [|split]].
+  - hs. rewrite map_length. apply Nat.ltb_lt in Hj. rewrite Hj. hs. rewrite map_length, Hj. hsimpl.
+    rewrite nth_map_some by (apply Nat.ltb_lt; exact Hj). hs. reflexivity.
+  - ss.
+  - split; reflexivity.
+  - hs. reflexivity.
+Qed.
+
+Lemma gen_Fork_close_exit j : length outs <= j ->
+  exists m h', run_local dflt (gen_mk dflt) 2 (fork_C j) = HCall CDone m /\ same_shared (fork_C j) m = true /\
+               run_local dflt (gen_mk dflt) 1 m = HExit h'.
+Proof.
+  intros Hj. unf. eexists. eexists. split; [|split].
+  - hs. rewrite map_length. apply Nat.ltb_ge in Hj. rewrite Hj. hs. reflexivity.
+  - ss.
+  - hs. reflexivity.
+Qed.
+
+Lemma gen_Fork_add_batch v : forall d j, length outs - j = d -> j <= length outs ->
+  BatchF dflt 4 (fork_A j v) (map (fun o => CAdd o v) (skipn j outs) ++ [CRemoveHead inq]) (BAwait (fork_W (length outs) 0%Z false)).
+Proof.
+  induction d as [|d IH]; intros j Hd Hj.
+  - assert (j = length outs) by lia. subst j. rewrite skipn_all. cbn [map app].
+    eapply BF_await; [apply gen_Fork_add_exit; lia | ss].
+  - destruct (gen_Fork_add_step j v) as (m & H1 & H2 & H3 & H4); [lia|].
+    rewrite (skipn_nth_cons j outs 0) by lia. cbn [map app].
+    eapply BF_call; [apply (run_local_le _ _ 3); [exact H1|exact Logic.I|lia] | reflexivity | exact H2 |].
+    apply (BatchF_Batch dflt 5); [unfold local_fuel; lia|].
+    apply (BatchF_skip dflt 1 4 m _ _ _ H4 H3). apply IH; lia.
+Qed.
+
+Lemma gen_Fork_close_batch : forall d j, length outs - j = d -> j <= length outs ->
+  BatchF dflt 3 (fork_C j) (map CClose (skipn j outs) ++ [CDone]) BExit.
+Proof.
+  induction d as [|d IH]; intros j Hd Hj.
+  - destruct (gen_Fork_close_exit j) as (m & h' & H1 & H2 & H3); [lia|].
+    rewrite skipn_all2 by lia. cbn [map app].
+    eapply BF_call; [apply (run_local_le _ _ 2); [exact H1|exact Logic.I|lia] | reflexivity | exact H2 |].
+    eapply B_exit. unfold next_call. apply (run_local_le _ _ 1); [exact H3|exact Logic.I|unfold local_fuel; lia].
+  - destruct (gen_Fork_close_step j) as (m & H1 & H2 & H3 & H4); [lia|].
+    rewrite (skipn_nth_cons j outs 0) by lia. cbn [map app].
+    eapply BF_call; [exact H1 | reflexivity | exact H2 |].
+    apply (BatchF_Batch dflt 4); [unfold local_fuel; lia|].
+    apply (BatchF_skip dflt 1 3 m _ _ _ H4 H3). apply IH; lia.
+Qed.
+
+(* a Fork helper that waits for the result of RemoveHead stands for the loop LFork inq outs *)
+Definition I_fork (w : hstate) (l : loop) : Prop := exists s v b, w = fork_W s v b /\ l = LFork inq outs.
+
+Lemma gen_Fork_helper_is_LFork w l v ok : I_fork w l ->
+  exists e, Batch dflt (deliver w (RHead v ok)) (fst (continue l v ok)) e /\ End I_fork e (snd (continue l v ok)).
+Proof.
+  intros (s & v0 & b0 & -> & ->). destruct ok; cbn [continue fst snd].
+  - exists (BAwait (fork_W (length outs) 0%Z false)). split.
+    + apply (BatchF_Batch dflt 6); [unfold local_fuel; lia|].
+      apply (BatchF_skip dflt 2 4 _ _ _ _ (gen_Fork_ok s v0 b0 v)); [split; reflexivity|].
+      apply (gen_Fork_add_batch v (length outs) 0); lia.
+    + exists (length outs), 0%Z, false. auto.
+  - exists BExit. split; [|reflexivity].
+    apply (BatchF_Batch dflt 6); [unfold local_fuel; lia|].
+    apply (BatchF_skip dflt 3 3 _ _ _ _ (gen_Fork_closed s v0 b0 v)); [split; reflexivity|].
+    apply (gen_Fork_close_batch (length outs) 0); lia.
+Qed.
+End Fork.
+
+(* ================= Split ================= *)
+Definition split_probe : hstate := probe_w (go_body gen_Split) (fan_env 0 [1; 2] 2 1 2).
+Definition split_KW : list kitem := Eval cbv in h_k split_probe.
+Definition split_KC : list kitem := Eval cbv in h_k (run_until at_while 1 8 (deliver split_probe (RHead 0%Z false))).
+
+Section Split.
+Variables (dflt inq : nat) (outs : list nat) (k c i : nat) (qs : list (nat * nat)).
+Notation fan_state := (fan_state inq outs k c i qs) (only parsing).
+
+Definition split_W (s : nat) (v : Z) (b : bool) : hstate :=
+  fan_state split_KW s [("head1"%string, VZ v); ("ok1"%string, VBool b)] 1 (Some ("head1"%string, "ok1"%string)).
+Definition split_C (j : nat) : hstate := fan_state split_KC j [] 1 None.
+Definition wrap (n s : nat) : nat := if S s <? n then S s else 0.
+
+Ltac unf := unfold split_W, split_C, fan_state, fan_env, split_KW, split_KC, deliver, wrap.
+
+Lemma gen_Split_start :
+  run_local dflt (gen_mk dflt) 4 (hstart (go_body gen_Split) (fan_env inq outs k c i) qs) = HCall (CRemoveHead inq) (split_W 0 0%Z false).
+Proof. unfold go_body, fan_env. cbn [gen_Split find]. do 4 hs. reflexivity. Qed.
+
+(* the value goes to the output whose turn it is; the iterator wraps around after the last one *)
+Lemma gen_Split_ok s v b v' : s < length outs ->
+  exists m, run_local dflt (gen_mk dflt) 3 (deliver (split_W s v b) (RHead v' true)) = HCall (CAdd (nth s outs 0) v') m /\
+            same_shared (deliver (split_W s v b) (RHead v' true)) m = true /\
+            run_local dflt (gen_mk dflt) 5 m = HCall (CRemoveHead inq) (split_W (wrap (length outs) s) 0%Z false) /\
+            same_shared m (split_W (wrap (length outs) s) 0%Z false) = true.
+Proof.
+  intros Hs. unf. eexists. split; [|split; [|split]].
+  - hsimpl. hs. hs. rewrite map_length. apply Nat.ltb_lt in Hs. rewrite Hs. hsimpl.
+    rewrite nth_map_some by (apply Nat.ltb_lt; exact Hs). hs. reflexivity.
+  - ss.
+  - hs. rewrite map_length. destruct (S s <? length outs); hsimpl; repeat hs; reflexivity.
+  - ss.
+Qed.
+
+Lemma gen_Split_closed s v b v' :
+  run_local dflt (gen_mk dflt) 3 (deliver (split_W s v b) (RHead v' false)) = HLocal (split_C 0).
+Proof. unf. hsimpl. do 3 hs. reflexivity. Qed.
+
+Lemma gen_Split_close_step j : j < length outs ->
+  exists m, run_local dflt (gen_mk dflt) 3 (split_C j) = HCall (CClose (nth j outs 0)) m /\
+            same_shared (split_C j) m = true /\ shared_eq m (split_C (S j)) /\
+            run_local dflt (gen_mk dflt) 1 m = HLocal (split_C (S j)).
+Proof.
+  intros Hj. unf. eexists. split; [|split; [|split]].
+  - hs. rewrite map_length. apply Nat.ltb_lt in Hj. rewrite Hj. hs. rewrite map_length, Hj. hsimpl.
+    rewrite nth_map_some by (apply Nat.ltb_lt; exact Hj). hs. reflexivity.
+  - ss.
+  - split; reflexivity.
+  - hs. reflexivity.
+Qed.
+
+Lemma gen_Split_close_exit j : length outs <= j ->
+  exists m h', run_local dflt (gen_mk dflt) 2 (split_C j) = HCall CDone m /\ same_shared (split_C j) m = true /\
+               run_local dflt (gen_mk dflt) 1 m = HExit h'.
+Proof.
+  intros Hj. unf. eexists. eexists. split; [|split].
+  - hs. rewrite map_length. apply Nat.ltb_ge in Hj. rewrite Hj. hs. reflexivity.
+  - ss.
+  - hs. reflexivity.
+Qed.
+
+Lemma gen_Split_close_batch : forall d j, length outs - j = d -> j <= length outs ->
+  BatchF dflt 3 (split_C j) (map CClose (skipn j outs) ++ [CDone]) BExit.
+Proof.
+  induction d as [|d IH]; intros j Hd Hj.
+  - destruct (gen_Split_close_exit j) as (m & h' & H1 & H2 & H3); [lia|].
+    rewrite skipn_all2 by lia. cbn [map app].
+    eapply BF_call; [apply (run_local_le _ _ 2); [exact H1|exact Logic.I|lia] | reflexivity | exact H2 |].
+    eapply B_exit. unfold next_call. apply (run_local_le _ _ 1); [exact H3|exact Logic.I|unfold local_fuel; lia].
+  - destruct (gen_Split_close_step j) as (m & H1 & H2 & H3 & H4); [lia|].
+    rewrite (skipn_nth_cons j outs 0) by lia. cbn [map app].
+    eapply BF_call; [exact H1 | reflexivity | exact H2 |].
+    apply (BatchF_Batch dflt 4); [unfold local_fuel; lia|].
+    apply (BatchF_skip dflt 1 3 m _ _ _ H4 H3). apply IH; lia.
+Qed.
+
+(* a Split helper that waits for the result of RemoveHead, its iterator at slot cur, stands for LSplit inq outs cur *)
+Definition I_split (w : hstate) (l : loop) : Prop :=
+  exists s v b, s < length outs /\ w = split_W s v b /\ l = LSplit inq outs s.
+
+Lemma gen_Split_helper_is_LSplit w l v ok : I_split w l ->
+  exists e, Batch dflt (deliver w (RHead v ok)) (fst (continue l v ok)) e /\ End I_split e (snd (continue l v ok)).
+Proof.
+  intros (s & v0 & b0 & Hs & -> & ->). destruct ok; cbn [continue fst snd].
+  - destruct (gen_Split_ok s v0 b0 v Hs) as (m & H1 & H2 & H3 & H4).
+    exists (BAwait (split_W (wrap (length outs) s) 0%Z false)). split.
+    + apply (BatchF_Batch dflt 3); [unfold local_fuel; lia|].
+      eapply BF_call; [exact H1 | reflexivity | exact H2 |].
+      apply B_await; [|exact H4]. unfold next_call. apply (run_local_le _ _ 5); [exact H3|exact Logic.I|unfold local_fuel; lia].
+    + exists (wrap (length outs) s), 0%Z, false. repeat split; auto.
+      unfold wrap. destruct (Nat.ltb_spec (S s) (length outs)); lia.
+  - exists BExit. split; [|reflexivity].
+    apply (BatchF_Batch dflt 6); [unfold local_fuel; lia|].
+    apply (BatchF_skip dflt 3 3 _ _ _ _ (gen_Split_closed s v0 b0 v)); [split; reflexivity|].
+    apply (gen_Split_close_batch (length outs) 0); lia.
+Qed.
+End Split.
+
+(* ================= Join ================= *)
+Definition join_genv (ins : list nat) (c outq s : nat) : env :=
+  [("group1"%string, VGroup); ("queues1"%string, VQs ins); ("inspector1"%string, VInspector);
+   ("iter1"%string, VIterQ {| it_vals := map Some ins; it_slot := s |}); ("num1"%string, VNum c);
+   ("queue1"%string, VQ (Some outq))].
+Definition join_probe : hstate := probe_w (go_body gen_Join) (join_genv [1; 2] 1 3 1).
+Definition join_KW : list kitem := Eval cbv in h_k join_probe.
+
+Section Join.
+Variables (dflt : nat) (ins : list nat) (c outq : nat) (qs : list (nat * nat)).
+
+Definition join_W (cur : nat) (v : Z) (b : bool) : hstate :=
+  {| h_k := join_KW;
+     h_env := join_genv ins c outq (S cur) ++
+              [("next1"%string, VQ (Some (nth cur ins 0))); ("head1"%string, VZ v); ("ok1"%string, VBool b)];
+     h_defer := 1; h_qs := qs; h_wg := 0; h_log := [EvDefer]; h_go := None;
+     h_pending := Some ("head1"%string, "ok1"%string); h_ret := None |}.
+
+Ltac unf := unfold join_W, join_genv, join_KW, deliver, wrap.
+
+Lemma gen_Join_start s0 : 0 < length ins ->
+  run_local dflt (gen_mk dflt) 5 (hstart (go_body gen_Join) (join_genv ins c outq s0) qs) = HCall (CRemoveHead (nth 0 ins 0)) (join_W 0 0%Z false).
+Proof.
+  intros H0. unfold go_body, join_genv. cbn [gen_Join find]. do 4 hs.
+  rewrite map_length. apply Nat.ltb_lt in H0. rewrite H0. hsimpl.
+  rewrite nth_map_some by (apply Nat.ltb_lt; exact H0). hs. reflexivity.
+Qed.
+
+(* the value goes to the output; the next value is taken from the next input, round robin *)
+Lemma gen_Join_ok cur v b v' : cur < length ins ->
+  exists m, run_local dflt (gen_mk dflt) 2 (deliver (join_W cur v b) (RHead v' true)) = HCall (CAdd outq v') m /\
+            same_shared (deliver (join_W cur v b) (RHead v' true)) m = true /\
+            run_local dflt (gen_mk dflt) 6 m = HCall (CRemoveHead (nth (wrap (length ins) cur) ins 0)) (join_W (wrap (length ins) cur) 0%Z false) /\
+            same_shared m (join_W (wrap (length ins) cur) 0%Z false) = true.
+Proof.
+  intros Hs. unf. eexists. split; [|split; [|split]].
+  - hsimpl. hs. hs. reflexivity.
+  - ss.
+  - hs. rewrite map_length. destruct (S cur <? length ins) eqn:E; hsimpl.
+    + do 3 hs. rewrite map_length, E. hsimpl. rewrite nth_map_some by (apply Nat.ltb_lt; exact E). hs. reflexivity.
+    + do 4 hs. rewrite map_length. assert (E0 : (0 <? length ins) = true) by (apply Nat.ltb_lt; lia). rewrite E0. hsimpl.
+      rewrite nth_map_some by lia. hs. reflexivity.
+  - ss.
+Qed.
+
+Lemma gen_Join_closed cur v b v' :
+  exists m m' h', run_local dflt (gen_mk dflt) 3 (deliver (join_W cur v b) (RHead v' false)) = HCall (CClose outq) m /\
+            same_shared (deliver (join_W cur v b) (RHead v' false)) m = true /\
+            run_local dflt (gen_mk dflt) 1 m = HCall CDone m' /\ same_shared m m' = true /\
+            run_local dflt (gen_mk dflt) 1 m' = HExit h'.
+Proof.
+  unf. do 3 eexists. split; [|split; [|split; [|split]]].
+  - hsimpl. do 3 hs. reflexivity.
+  - ss.
+  - hs. reflexivity.
+  - ss.
+  - hs. reflexivity.
+Qed.
+
+Definition I_join (w : hstate) (l : loop) : Prop :=
+  exists cur v b, cur < length ins /\ w = join_W cur v b /\ l = LJoin ins cur outq.
+
+Lemma gen_Join_helper_is_LJoin w l v ok : I_join w l ->
+  exists e, Batch dflt (deliver w (RHead v ok)) (fst (continue l v ok)) e /\ End I_join e (snd (continue l v ok)).
+Proof.
+  intros (s & v0 & b0 & Hs & -> & ->). destruct ok; cbn [continue fst snd].
+  - destruct (gen_Join_ok s v0 b0 v Hs) as (m & H1 & H2 & H3 & H4). fold (wrap (length ins) s).
+    exists (BAwait (join_W (wrap (length ins) s) 0%Z false)). split.
+    + apply (BatchF_Batch dflt 2); [unfold local_fuel; lia|].
+      eapply BF_call; [exact H1 | reflexivity | exact H2 |].
+      apply B_await; [|exact H4]. unfold next_call. apply (run_local_le _ _ 6); [exact H3|exact Logic.I|unfold local_fuel; lia].
+    + exists (wrap (length ins) s), 0%Z, false. repeat split; auto.
+      unfold wrap. destruct (Nat.ltb_spec (S s) (length ins)); lia.
+  - destruct (gen_Join_closed s v0 b0 v) as (m & m' & h' & H1 & H2 & H3 & H4 & H5).
+    exists BExit. split; [|reflexivity].
+    apply (BatchF_Batch dflt 3); [unfold local_fuel; lia|].
+    eapply BF_call; [exact H1 | reflexivity | exact H2 |].
+    eapply B_call; [unfold next_call; apply (run_local_le _ _ 1); [exact H3|exact Logic.I|unfold local_fuel; lia] | reflexivity | exact H4 |].
+    eapply B_exit. unfold next_call. apply (run_local_le _ _ 1); [exact H5|exact Logic.I|unfold local_fuel; lia].
+Qed.
+End Join.
+
+(* ================= the callers' part of Fork / Split / Join ================= *)
+Definition fan_KP (F : list pstmt) : list kitem := h_k (run_until at_while 1 12 (hstart F (fork_env 0 2) [(1, 1)])).
+Definition fork_KP : list kitem := Eval cbv in fan_KP gen_Fork.
+Definition split_KP : list kitem := Eval cbv in fan_KP gen_Split.
+
+(* at the head of the loop that makes the outputs: j made so far *)
+Definition fan_P (K : list kitem) (k cap j : nat) : hstate :=
+  {| h_k := K; h_env := fan_env 0 (seq 1 j) k cap j;
+     h_defer := 0; h_qs := repeat (cap, cap) (S j); h_wg := 0; h_log := []; h_go := None; h_pending := None; h_ret := None |}.
+
+Definition spawned (F : list pstmt) (h : hstate) (e : env) (outs : pval) (qs : list (nat * nat)) : Prop :=
+  h_go h = Some (go_body F, e) /\ h_ret h = Some outs /\ h_qs h = qs /\ h_wg h = 1 /\
+  h_log h = [EvAdd 1; EvYield 8%Z; EvGo].
+
+Lemma repeat_snoc {A} (x : A) n : repeat x n ++ [x] = repeat x (S n).
+Proof. induction n as [|n IH]; simpl; [reflexivity|]. rewrite IH. reflexivity. Qed.
+
+Lemma fan_reaches_loop dflt k cap F K : F = gen_Fork /\ K = fork_KP \/ F = gen_Split /\ K = split_KP -> 2 <= k ->
+  exists n, n <= 8 /\ run_local dflt (gen_mk dflt) n (hstart F (fork_env 0 k) [(cap, cap)]) = HLocal (fan_P K k cap 0).
+Proof.
+  intros HF Hk. assert (E : (k <? 2) = false) by (apply Nat.ltb_ge; lia).
+  destruct HF as [[-> ->]|[-> ->]]; unfold fork_env;
+    first [ exists 5 | exists 6 | exists 4 | exists 7 ]; (split; [lia|]);
+    hs; rewrite E; hsimpl; repeat hs; reflexivity.
+Qed.
+
+Lemma fan_loop_step dflt k cap K j : K = fork_KP \/ K = split_KP -> 1 <= cap -> j < k ->
+  exists n, n <= 6 /\ run_local dflt (gen_mk dflt) n (fan_P K k cap j) = HLocal (fan_P K k cap (S j)).
+Proof.
+  intros HK Hc Hj. assert (E : (j <? k) = true) by (apply Nat.ltb_lt; lia).
+  assert (Ec : (cap <? 1) = false) by (apply Nat.ltb_ge; lia).
+  assert (R : fan_P K k cap (S j) =
+    {| h_k := K; h_env := fan_env 0 (seq 1 j ++ [length (repeat (cap, cap) (S j))]) k cap (S j);
+       h_defer := 0; h_qs := repeat (cap, cap) (S j) ++ [(cap, cap)]; h_wg := 0; h_log := []; h_go := None; h_pending := None; h_ret := None |}).
+  { unfold fan_P. rewrite repeat_snoc, repeat_length, seq_S. reflexivity. }
+  rewrite R. unfold fan_P, fan_env.
+  destruct HK as [->| ->]; unfold fork_KP, split_KP;
+    first [ exists 4; split; [lia|]; hs; rewrite E; hsimpl; repeat (hs; rewrite ?gen_mk_spec, ?Ec; hsimpl); reflexivity
+          | exists 5; split; [lia|]; hs; rewrite E; hsimpl; repeat (hs; rewrite ?gen_mk_spec, ?Ec; hsimpl); reflexivity
+          | exists 6; split; [lia|]; hs; rewrite E; hsimpl; repeat (hs; rewrite ?gen_mk_spec, ?Ec; hsimpl); reflexivity ].
+Qed.
+
+Lemma fan_loop_exit dflt k cap F K j : F = gen_Fork /\ K = fork_KP \/ F = gen_Split /\ K = split_KP -> k <= j ->
+  exists n h, n <= 8 /\ run_local dflt (gen_mk dflt) n (fan_P K k cap j) = HExit h /\
+              spawned F h (fan_env 0 (seq 1 j) k cap j) (VQs (seq 1 j)) (repeat (cap, cap) (S j)).
+Proof.
+  intros HF Hj. assert (E : (j <? k) = false) by (apply Nat.ltb_ge; lia).
+  unfold fan_P, fan_env, spawned.
+  destruct HF as [[-> ->]|[-> ->]]; unfold fork_KP, split_KP;
+    first [ exists 6 | exists 5 | exists 7 ]; eexists; (split; [lia|]);
+    (split; [hs; rewrite E; hsimpl; repeat hs; reflexivity | repeat split]).
+Qed.
+
+(* Fork / Split called on queue 0 (capacity cap) with size k: k queues of that capacity are made, 1 is added to the wait
+   group and verifYield(8) is called BEFORE the go statement; the goroutine gets the k outputs in order *)
+Lemma fan_prelude dflt k cap F K : F = gen_Fork /\ K = fork_KP \/ F = gen_Split /\ K = split_KP -> 2 <= k -> 1 <= cap ->
+  exists h, call_fn dflt (prelude_fuel k) F (fork_env 0 k) [(cap, cap)] = Some h /\
+            spawned F h (fan_env 0 (seq 1 k) k cap k) (VQs (seq 1 k)) (repeat (cap, cap) (S k)).
+Proof.
+  intros HF Hk Hc.
+  assert (HK : K = fork_KP \/ K = split_KP) by (destruct HF as [[_ ->]|[_ ->]]; auto).
+  assert (L : forall d j, k - j = d -> j <= k ->
+            exists n h, n <= 6 * d + 8 /\ run_local dflt (gen_mk dflt) n (fan_P K k cap j) = HExit h /\
+                        spawned F h (fan_env 0 (seq 1 k) k cap k) (VQs (seq 1 k)) (repeat (cap, cap) (S k))).
+  { induction d as [|d IH]; intros j Hd Hj.
+    - assert (j = k) by lia. subst j. destruct (fan_loop_exit dflt k cap F K k HF) as (n & h & Hn & H & Hs); [lia|].
+      exists n, h. repeat split; auto; try lia; apply Hs.
+    - destruct (fan_loop_step dflt k cap K j HK Hc) as (n1 & Hn1 & H1); [lia|].
+      destruct (IH (S j)) as (n2 & h & Hn2 & H2 & Hs); try lia.
+      exists (n1 + n2), h. split; [lia|]. split; [|exact Hs]. rewrite run_local_add, H1. exact H2. }
+  destruct (fan_reaches_loop dflt k cap F K HF Hk) as (n0 & Hn0 & H0).
+  destruct (L k 0) as (n & h & Hn & H & Hs); try lia.
+  exists h. split; [|exact Hs]. unfold call_fn.
+  rewrite (run_local_le _ _ (n0 + n) (prelude_fuel k) _ (HExit h)); auto.
+  - rewrite run_local_add, H0. exact H.
+  - exact Logic.I.
+  - unfold prelude_fuel. lia.
+Qed.
+
+(* Join called on the queues i0 :: ins: its output gets the capacity of the FIRST input; then as above *)
+Lemma join_prelude dflt i0 ins' Q c0 c : nth_error Q i0 = Some (c0, c) -> 1 <= c ->
+  exists h, call_fn dflt (prelude_fuel 0) gen_Join (join_env (i0 :: ins')) Q = Some h /\
+            spawned gen_Join h (join_genv (i0 :: ins') c (length Q) 1) (VQ (Some (length Q))) (Q ++ [(c, c)]).
+Proof.
+  intros HQ Hc. assert (Ec : (c <? 1) = false) by (apply Nat.ltb_ge; lia).
+  unfold call_fn, join_env, spawned, join_genv.
+  assert (X : exists h, run_local dflt (gen_mk dflt) 10 (hstart gen_Join [("group1"%string, VGroup); ("queues1"%string, VQs (i0 :: ins'))] Q) = HExit h /\
+     (h_go h = Some (go_body gen_Join, [("group1"%string, VGroup); ("queues1"%string, VQs (i0 :: ins')); ("inspector1"%string, VInspector);
+       ("iter1"%string, VIterQ {| it_vals := map Some (i0 :: ins'); it_slot := 1 |}); ("num1"%string, VNum c); ("queue1"%string, VQ (Some (length Q)))]) /\
+      h_ret h = Some (VQ (Some (length Q))) /\ h_qs h = Q ++ [(c, c)] /\ h_wg h = 1 /\ h_log h = [EvAdd 1; EvYield 8%Z; EvGo])).
+  { eexists. split.
+    - do 2 hs. cbn [Nat.eqb]. hsimpl. do 2 hs. cbn [Nat.ltb Nat.leb nth]. hsimpl. rewrite HQ; hsimpl; hs; rewrite gen_mk_spec, Ec; hsimpl; repeat hs; reflexivity.
+    - repeat split. }
+  destruct X as (h & H & Hs). exists h. split; [|exact Hs].
+  rewrite (run_local_le _ _ 10 (prelude_fuel 0) _ (HExit h)); auto. exact Logic.I. unfold prelude_fuel; lia.
+Qed.
+
+(* ================= the three shapes of Pipes.v, loaded ================= *)
+Lemma map_repeat' {A B} (f : A -> B) x n : map f (repeat x n) = repeat (f x) n.
+Proof. induction n as [|n IH]; simpl; [reflexivity|]. now rewrite IH. Qed.
+
+Lemma PR_one dflt I qs w thp thg TL h :
+  Rt dflt I (Some h) thp thg ->
+  PR dflt I {| pg := {| gqueues := qs; gwg := w; gthreads := thp :: TL |}; ph := [Some h] |}
+            {| gqueues := qs; gwg := w; gthreads := thg :: TL |}.
+Proof.
+  intros HR. unfold PR; cbn. repeat split; auto. intros [|t]; [exact HR|]. cbn. destruct t; reflexivity.
+Qed.
+
+Lemma PR_two dflt I qs w thp1 thg1 thp2 thg2 TL h1 h2 :
+  Rt dflt I (Some h1) thp1 thg1 -> Rt dflt I (Some h2) thp2 thg2 ->
+  PR dflt I {| pg := {| gqueues := qs; gwg := w; gthreads := thp1 :: thp2 :: TL |}; ph := [Some h1; Some h2] |}
+            {| gqueues := qs; gwg := w; gthreads := thg1 :: thg2 :: TL |}.
+Proof.
+  intros HR1 HR2. unfold PR; cbn. repeat split; auto. intros [|[|t]]; [exact HR1|exact HR2|]. cbn. destruct t; reflexivity.
+Qed.
+
+Lemma fan_tail vs k :
+  map gload_thread (feeder vs :: map consumer (outs k) ++ [waiter]) =
+  idle_thread (feeder_calls vs) :: map consumer_thread (seq 1 k) ++ [idle_thread [CWait]].
+Proof. unfold outs. cbn [map]. rewrite map_app, map_map. reflexivity. Qed.
+
+Theorem gen_fork_loaded dflt vs k cap : 2 <= k -> 1 <= cap ->
+  exists p, pfork_prog dflt vs k cap = Some p /\
+            PR dflt (I_fork 0 (seq 1 k) k cap k (repeat (cap, cap) (S k))) p (gload (fork_prog vs k cap)).
+Proof.
+  intros Hk Hc. destruct (fan_prelude dflt k cap gen_Fork fork_KP (or_introl (conj eq_refl eq_refl)) Hk Hc) as (h & Hcall & Hgo & Hret & Hqs & Hwg & Hlog).
+  unfold pfork_prog, pfan_prog. rewrite Hcall, Hgo, Hret, Hqs, Hwg. unfold start_thread.
+  rewrite (next_call_after dflt 0 4 _ _ _ eq_refl (gen_Fork_start dflt 0 (seq 1 k) k cap k (repeat (cap, cap) (S k)))) by (simpl; auto; unfold local_fuel; lia).
+  eexists. split; [reflexivity|].
+  unfold gload, fork_prog. cbn [queues wg threads]. rewrite map_cons, fan_tail, map_repeat'. cbn [fst].
+  apply PR_one. split; [reflexivity|]. cbn. split; [reflexivity|]. exists 0, 0%Z, false. auto.
+Qed.
+
+Theorem gen_split_loaded dflt vs k cap : 2 <= k -> 1 <= cap ->
+  exists p, psplit_prog dflt vs k cap = Some p /\
+            PR dflt (I_split 0 (seq 1 k) k cap k (repeat (cap, cap) (S k))) p (gload (split_prog vs k cap)).
+Proof.
+  intros Hk Hc. destruct (fan_prelude dflt k cap gen_Split split_KP (or_intror (conj eq_refl eq_refl)) Hk Hc) as (h & Hcall & Hgo & Hret & Hqs & Hwg & Hlog).
+  unfold psplit_prog, pfan_prog. rewrite Hcall, Hgo, Hret, Hqs, Hwg. unfold start_thread.
+  rewrite (next_call_after dflt 0 4 _ _ _ eq_refl (gen_Split_start dflt 0 (seq 1 k) k cap k (repeat (cap, cap) (S k)))) by (simpl; auto; unfold local_fuel; lia).
+  eexists. split; [reflexivity|].
+  unfold gload, split_prog. cbn [queues wg threads]. rewrite map_cons, fan_tail, map_repeat'. cbn [fst].
+  apply PR_one. split; [reflexivity|]. cbn. split; [reflexivity|]. exists 0, 0%Z, false. rewrite seq_length. repeat split; auto. lia.
+Qed.
+
+Definition I_splitjoin (k cap : nat) (w : hstate) (l : loop) : Prop :=
+  I_split 0 (seq 1 k) k cap k (repeat (cap, cap) (S k)) w l \/
+  I_join (seq 1 k) cap (S k) (repeat (cap, cap) (S (S k))) w l.
+
+Lemma End_mono (I J : hstate -> loop -> Prop) e l : (forall w l, I w l -> J w l) -> End I e l -> End J e l.
+Proof. intros H. destruct e; simpl; auto. Qed.
+
+Lemma I_splitjoin_closed dflt k cap w l v ok : I_splitjoin k cap w l ->
+  exists e, Batch dflt (deliver w (RHead v ok)) (fst (continue l v ok)) e /\ End (I_splitjoin k cap) e (snd (continue l v ok)).
+Proof.
+  intros [H|H].
+  - destruct (gen_Split_helper_is_LSplit dflt _ _ _ _ _ _ w l v ok H) as (e & A & B). exists e. split; [exact A|].
+    eapply End_mono; [|exact B]. intros; left; assumption.
+  - destruct (gen_Join_helper_is_LJoin dflt _ _ _ _ w l v ok H) as (e & A & B). exists e. split; [exact A|].
+    eapply End_mono; [|exact B]. intros; right; assumption.
+Qed.
+
+Theorem gen_splitjoin_loaded dflt vs k cap : 2 <= k -> 1 <= cap ->
+  exists p, psplitjoin_prog dflt vs k cap = Some p /\ PR dflt (I_splitjoin k cap) p (gload (splitjoin_prog vs k cap)).
+Proof.
+  intros Hk Hc. destruct (fan_prelude dflt k cap gen_Split split_KP (or_intror (conj eq_refl eq_refl)) Hk Hc) as (h1 & Hcall & Hgo & Hret & Hqs & Hwg & Hlog).
+  unfold psplitjoin_prog. rewrite Hcall, Hgo, Hret, Hqs, Hwg.
+  destruct k as [|k']; [lia|]. rewrite <- cons_seq.
+  destruct (join_prelude dflt 1 (seq 2 k') (repeat (cap, cap) (S (S k'))) cap cap) as (h2 & Hcall2 & Hgo2 & Hret2 & Hqs2 & Hwg2 & Hlog2); [reflexivity|exact Hc|].
+  rewrite Hcall2, Hgo2, Hret2, Hqs2, Hwg2. unfold start_thread.
+  rewrite cons_seq.
+  rewrite (next_call_after dflt 0 4 _ _ _ eq_refl (gen_Split_start dflt 0 (seq 1 (S k')) (S k') cap (S k') (repeat (cap, cap) (S (S k'))))) by (simpl; auto; unfold local_fuel; lia).
+  rewrite repeat_length, repeat_snoc.
+  rewrite (next_call_after dflt 0 5 _ _ _ eq_refl (gen_Join_start dflt (seq 1 (S k')) cap (S (S k')) (repeat (cap, cap) (S (S (S k')))) 1 ltac:(rewrite seq_length; lia))) by (simpl; auto; unfold local_fuel; lia).
+  eexists. split; [reflexivity|].
+  unfold gload, splitjoin_prog. cbn [queues wg threads]. cbn [map]. rewrite map_repeat'. cbn [fst].
+  apply PR_two.
+  - split; [reflexivity|]. cbn. split; [reflexivity|]. left. exists 0, 0%Z, false. rewrite seq_length. repeat split; auto. lia.
+  - split; [reflexivity|]. cbn. split; [reflexivity|]. right. exists 0, 0%Z, false. rewrite seq_length. repeat split; auto. lia.
+Qed.
